@@ -86,10 +86,20 @@ def World.withReg (w : World K) (f : (List (K × K × K) → K × K) → Reg K) 
   if r'.nReg != w.rh.reg.nReg then
     let dev := match h? with
       | some h =>
-        -- the two fits are compared at the newest point and by slope; the normal equations lose
-        -- digits in proportion to the blow index, so the difference is scaled by 1 + |x|/1000
-        (maxK (absK ((h.1 + h.2 * r'.lastX) - (r'.lastOwn.1 + r'.lastOwn.2 * r'.lastX)))
-              (absK (h.2 - r'.lastOwn.2))) / (Num.ofNat 1 + absK r'.lastX / Num.ofNat 1000)
+        -- The implementation solves the *uncentred* normal equations with `numpy.linalg.inv`; its
+        -- rounding error grows with their condition number (≈ mean square blow / variance of the
+        -- blows) times the size of the times.  The exact fit (`lastOwn`, centred evaluation) is
+        -- compared with it at the newest point and by slope, in units of that error bound, so that
+        -- the figure reported is dimensionless ("how many times the rounding the algorithm admits").
+        let d := maxK (absK ((h.1 + h.2 * r'.lastX) - (r'.lastOwn.1 + r'.lastOwn.2 * r'.lastX)))
+                      (absK (h.2 - r'.lastOwn.2))
+        let z : K := Num.ofNat 0
+        let s0 := r'.dataSet.foldl (fun a (_, _, w) => a + w) z
+        let s1 := r'.dataSet.foldl (fun a (b, _, w) => a + w * b) z
+        let s2 := r'.dataSet.foldl (fun a (b, _, w) => a + w * b * b) z
+        let cond := maxK (Num.ofNat 1) (s0 * s2 / (s0 * s2 - s1 * s1))
+        let size := maxK (Num.ofNat 1) (absK (h.1 + h.2 * r'.lastX))
+        d / (cond * size) * Num.ofNat 4503599627370496        -- 2^52
       | none => W0
     { w with rh := { w.rh with reg := r' }, tape := w.tape.tail, maxDev := maxK w.maxDev dev }
   else { w with rh := { w.rh with reg := r' } }
